@@ -62,6 +62,9 @@ def cache_dir_cycle(ctx):
 
 def run(ctx):
     proof = common.proof_status(ctx)
+    # block-level correspondence of the file block-list model the FileMap theorems are about
+    from . import filemapcorr
+    filemapcorr.run(ctx, 8 if ctx.tier == "quick" else 200)
     b = [("create-delete-cycle", cycle) for _ in range(10 if ctx.tier == "quick" else 200)]
     b += [("dircache-directory-cycle", cache_dir_cycle) for _ in range(6 if ctx.tier == "quick" else 120)]
     b += [("dircache-empty-a-block", c07.block_sweep) for _ in range(2 if ctx.tier == "quick" else 30)]
